@@ -198,6 +198,48 @@ def check(run, model, tier):
              'two lines differing only in the timestamp still differ after stripping', node=rcall, obligation=True)
     run.inst('TABLE.timestamp-prefix', helper, 'other differences survive', strip_prefix(a) != strip_prefix(c),
              'two lines differing in their end state compare equal after stripping', node=rcall, obligation=True)
+    # ---- the whole function evaluated on small traces built from the writer's own layout: what the table and the branch comparison cannot see is what happens *between*
+    # lines (a record dropped because it looks like its neighbour, a line joined to the next)
+    run.rule('STRIP.eval', 'stripped() evaluated on traces of writer-format lines (equal and different timestamps, repeated records, blank and padded lines): the result is the list '
+                           'of the non-blank lines without their timestamp; a single line gives that line without its timestamp')
+    from sa import pureeval
+    t1, t2 = render(tfmts[0], '1'), render(tfmts[0], '2')
+
+    def wl(ts, sig, s0, s1):
+        return layout.format(ts, 'c1', sig, s0, s1).rstrip('\n')
+    recs = {'ab': ('GO', 'a', 'b'), 'bb': ('TICK', 'b', 'b'), 'ba': ('BACK', 'b', 'a')}
+    traces = []
+    for stamps in ((t1, t2, t2), (t1, t1, t1), (t2, t1, t1)):
+        for kinds in (('ab', 'bb', 'ba'), ('ab', 'bb', 'bb'), ('bb', 'bb', 'bb'), ('ab', 'ba', 'ab')):
+            lines = [wl(ts_, *recs[k_]) for ts_, k_ in zip(stamps, kinds)]
+            want = [strip_prefix(l_) for l_ in lines]
+            traces.append(('\n'.join(lines), want))
+            traces.append(('\n' + '\n\n'.join('   ' + l_ + '  ' for l_ in lines) + '\n   \n', want))
+    for k_ in recs:
+        l_ = wl(t1, *recs[k_])
+        traces.append((l_, strip_prefix(l_)))
+        traces.append(('   ' + l_ + '  ', strip_prefix(l_)))
+    re_obj = pureeval.Obj(match=re.match, search=re.search, fullmatch=re.fullmatch, sub=re.sub, compile=re.compile, findall=re.findall, split=re.split)
+    bad_e = None
+    n_e = 0
+    try:
+        for text, want in traces:
+            try:
+                got = pureeval.call(stripped.node, [text], globals_=dict(pureeval.module_constants(model, stripped.module), re=re_obj, __yield_returns__=True), mutable=True,
+                                    strict_locals=True)
+            except pureeval.Raised as ex_:
+                got = 'raises ' + ex_.what
+            n_e += 1
+            if isinstance(got, tuple):
+                got = list(got)
+            if got != want and bad_e is None:
+                bad_e = (text, want, got)
+        run.inst('STRIP.eval', stripped, 'stripped(trace) over %d traces' % len(traces), bad_e is None,
+                 '' if bad_e is None else ('stripped(%r) gives %r, expected %r: what is left after stripping depends on more than the text after the timestamps (records with equal '
+                                           'timestamps, repeated records or blank lines change the result), so two traces that differ only in timestamps need not compare equal'
+                                           % (bad_e[0], bad_e[2], bad_e[1])), obligation=True)
+    except AnalysisError as ex_:
+        run.note('stripped() is outside the evaluator\'s fragment (%s): decided by the table and branch rules only' % ex_)
     # ---- SIBLING: every application of the prefix removal receives a stripped line; inside an iteration (several lines) blank lines are dropped
     sites = []          # (function, call whose first subject argument is the line)
     for fn_, how_, pat_, c_, rest_ in uses:
